@@ -156,6 +156,9 @@ func LoadWorld(repo string, rels []string) (*World, error) {
 				return nil, &MissingTarget{fmt.Sprintf("SSA function for %s.%s not found", rel, fc.Key())}
 			}
 			w.ByFunc[fn] = fc
+			for _, g := range fc.GhostSets {
+				ghostSetArrays["ghost|"+g.Kind] = true
+			}
 		}
 	}
 	return w, nil
